@@ -40,6 +40,7 @@ struct Ctx
     std::uint64_t seed = 0;
     std::uint64_t idx = 0;          // calls the integrand has received
     std::uint64_t draws = 0;        // raw draws taken from any scripted engine
+    std::uint64_t map_calls = 0;    // invocations of any channel map
     bool trace = false;
     std::vector<Sx> events;
     std::vector<Sx> cbs;
@@ -162,6 +163,7 @@ template <typename T> struct Map
     // early: the densities are written during the coordinate call already and the density call only returns the jacobian
     // (the documentation of multi_channel_map allows it and the library's examples are written that way)
     bool early = false;
+    std::uint64_t own_calls = 0;      // state kept in the map object itself (read back through integrand.map() after the run)
     std::vector<T> ctab, dtab, jtab;
     std::size_t mapdims = 0, channels = 0;
     T kappa = T(1.0);
@@ -187,6 +189,7 @@ template <typename T> struct Map
     T operator()(std::size_t channel, std::vector<T> const& us, std::vector<T>& coords, std::vector<std::size_t> const& enabled,
         std::vector<T>& dens, hep::multi_channel_map action)
     {
+        ++own_calls; ++g_ctx->map_calls;
         if (action == hep::multi_channel_map::calculate_coordinates)
         {
             cur = g_ctx->idx;
@@ -820,10 +823,13 @@ template <typename T> Sx run_case(std::string const& cmd, Sx const& a)
             auto& i1 = sp.reuse ? kept1 : fresh1; auto& i0 = sp.reuse ? kept0 : fresh0;
             std::uint64_t const own_before = i1.function().own_calls + i0.function().own_calls;
             std::uint64_t const before = g_ctx->idx;
+            std::uint64_t const map_before = g_ctx->map_calls, own_map_before = i1.map().own_calls + i0.map().own_calls;
             C r = (sp.builtin && sp.cbbase) ? (with_dists ? hep::multi_channel(i1, calls, c, bbb) : hep::multi_channel(i0, calls, c, bbb))
                 : with_dists ? (sp.builtin ? hep::multi_channel(i1, calls, c, bcb) : hep::multi_channel(i1, calls, c, scb))
                 : (sp.builtin ? hep::multi_channel(i0, calls, c, bcb) : hep::multi_channel(i0, calls, c, scb));
             check_function_state(i1.function().own_calls + i0.function().own_calls - own_before, g_ctx->idx - before);
+            if (i1.map().own_calls + i0.map().own_calls - own_map_before != g_ctx->map_calls - map_before)
+                g_ctx->cbs.push_back(Sx::list({Sx::sym("map_object_not_invoked"), Sx::num(i1.map().own_calls + i0.map().own_calls - own_map_before), Sx::num(g_ctx->map_calls - map_before)}));
             return r; },
             [&](Spec<T>& my, std::vector<std::size_t> const& calls, C const& c) {
 #ifdef VERIF_MPI
